@@ -727,6 +727,21 @@ func (d *dealerPart) onCallMsg(w *World, st *StepRec, s int, realm string, rc *R
 	// C07: whether an INVOCATION still fits into the queue of a callee that does
 	// not read, and what a yield towards a caller that does not read does, is
 	// judged by the bounded-hold scenario, not by the exact model.
+	// A callee that does not read and whose queue is known to be full cannot be
+	// handed the INVOCATION: the call cannot be routed, its caller gets one ERROR
+	// now (A.2) and nothing of the call remains.
+	if !w.stalled[s] && len(cands) == 1 && !isProgressChunk {
+		if al := allowedCallees(cands[0]); len(al) == 1 && len(cands[0].members) == 1 {
+			x := al[0]
+			dm, _ := m.Options["disclose_me"].(bool)
+			if w.stalled[x] && w.sess[x].local && !w.unsure[x] && len(w.backlog[x]) >= w.queueCap(x) && len(exp[x]) == 0 && !dm {
+				w.st.Label("call_to_callee_with_full_queue")
+				exp.must(s, fmt.Sprintf("ERROR{CALL req=%d} because the callee's queue is full", req), func(x wamp.Message) bool { return isCallError(x, req, "") })
+				d.finalDue[ck{s, req}]++
+				return nil
+			}
+		}
+	}
 	for _, r := range cands {
 		for _, idx := range r.members {
 			if w.stalled[idx] || w.stalled[s] {
